@@ -169,14 +169,18 @@ theorem dict_inv (E : Env) (kf vf : Option FieldSpec) (d : List (Val × Val)) (o
           exact setSeq_dictOk (setAll_ok hd (validateEntries_ok hv))
   | setdefault k v =>
     simp only [dstep]
-    cases he : validateEntry E kf vf k (v.getD .none) with
-    | error e => simpa using hd
-    | ok kv =>
-      obtain ⟨k', v'⟩ := kv
+    cases hp : presentUnder E kf d k with
+    | some old => simpa using hd
+    | none =>
       simp only
-      cases hl : dictLookup k' d with
-      | some old => simpa using hd
-      | none => exact dictSet_ok hd (validateEntry_ok he)
+      cases he : validateEntry E kf vf k (v.getD .none) with
+      | error e => simpa using hd
+      | ok kv =>
+        obtain ⟨k', v'⟩ := kv
+        simp only
+        cases hl : dictLookup k' d with
+        | some old => simpa using hd
+        | none => exact dictSet_ok hd (validateEntry_ok he)
   | ior pairs =>
     simp only [dstep]
     by_cases hp : pairs.isEmpty = true
@@ -351,14 +355,18 @@ theorem dict_keys_nodup (E : Env) (kf vf : Option FieldSpec) (d : List (Val × V
           exact setSeq_keys_nodup (setAll_keys_nodup hd)
   | setdefault k v =>
     simp only [dstep]
-    cases he : validateEntry E kf vf k (v.getD .none) with
-    | error e => simpa using hd
-    | ok kv =>
-      obtain ⟨k', v'⟩ := kv
+    cases hp : presentUnder E kf d k with
+    | some old => simpa using hd
+    | none =>
       simp only
-      cases hl : dictLookup k' d with
-      | some old => simpa using hd
-      | none => exact dictSet_keys_nodup hd
+      cases he : validateEntry E kf vf k (v.getD .none) with
+      | error e => simpa using hd
+      | ok kv =>
+        obtain ⟨k', v'⟩ := kv
+        simp only
+        cases hl : dictLookup k' d with
+        | some old => simpa using hd
+        | none => exact dictSet_keys_nodup hd
   | ior pairs =>
     simp only [dstep]
     by_cases hp : pairs.isEmpty = true
